@@ -1,12 +1,31 @@
-//! C09: the CLI modes of `incan fmt`. `vharness run c09 <fmt|check|diff> <path>` calls the REAL
-//! `incan::cli::commands::format_files(path, check, diff)` (the function `incan fmt` dispatches to,
-//! src/cli/mod.rs) in this process and prints, after whatever the function itself printed, one line
-//! `@@C09 <ok|err> <exit code> <message>`.  File contents are hashed by the Python side before/after.
-use crate::common::catch;
+//! C09.
+//! (1) the CLI modes of `incan fmt`: `vharness run c09 <fmt|check|diff|checkdiff> <path>` calls the REAL
+//!     `incan::cli::commands::format_files(path, check, diff)` (the function `incan fmt` dispatches to,
+//!     src/cli/mod.rs) in this process and prints, after whatever the function itself printed, one line
+//!     `@@C09 <ok|err> <exit code> <message>`.  File contents are hashed by the Python side before/after.
+//! (2) `vharness run c09 layout`: the tie of the character-level layout model (coq/Fmt/Writer.v).  One JSON request
+//!     per stdin line `{"src": .., "indent_width": w, "tweaks": [..]}`; the source is parsed with the REAL parser,
+//!     optional AST tweaks build shapes the parser never produces (the model's arms that are unreachable from
+//!     source), the REAL `Formatter` prints the program, and the AST is converted to the model's skeleton:
+//!     structure is copied field by field; every text the model treats as opaque is produced by the REAL
+//!     formatter (an expression via `const X = <e>`, a type via `const X: <t> = Y`, a pattern via a match arm of a
+//!     wrapper function).  Block-bodied sub-expressions (`match` / `if` expressions) are replaced by marker
+//!     identifiers before an expression is printed and the printed text is split at the markers, so the
+//!     stretches between them are exactly what the real `format_expr` writes around them.
+//!     Only `doc.trim()` + the two `replace` calls of format_docstring are repeated here (the model's docstring
+//!     input is that text).
+use crate::common::{catch, each_line};
+use incan::ast::*;
+use incan::format::{FormatConfig, Formatter};
+use incan::{lexer, parser};
+use serde_json::{json, Value};
 use std::io::Write;
 
 pub fn run(args: &[String]) {
     let mode = args.first().map(|s| s.as_str()).unwrap_or("");
+    if mode == "layout" {
+        return run_layout();
+    }
     let path = args.get(1).cloned().unwrap_or_default();
     let (check, diff) = match mode {
         "fmt" => (false, false),
@@ -14,7 +33,7 @@ pub fn run(args: &[String]) {
         "diff" => (false, true),
         "checkdiff" => (true, true),
         _ => {
-            eprintln!("c09: mode must be fmt|check|diff|checkdiff");
+            eprintln!("c09: mode must be fmt|check|diff|checkdiff|layout");
             std::process::exit(2);
         }
     };
@@ -25,4 +44,668 @@ pub fn run(args: &[String]) {
         Ok(Err(e)) => println!("@@C09 err {} {}", e.exit_code.0, e.message.replace('\n', "\\n")),
         Err(p) => println!("@@C09 panic 101 {}", p.replace('\n', "\\n")),
     }
+}
+
+// ------------------------------------------------------------------------------------ layout tie
+
+const M_OPEN: char = '\u{E000}';
+const M_CLOSE: char = '\u{E001}';
+
+struct Conv {
+    width: usize,
+    /// texts produced by a wrapper whose fixed prefix / suffix was not found (reported, never silently used)
+    problems: Vec<String>,
+}
+
+fn sp<T>(node: T) -> Spanned<T> {
+    Spanned::new(node, Span::default())
+}
+
+fn children_mut<'a>(e: &'a mut Expr, out: &mut Vec<&'a mut Spanned<Expr>>) {
+    fn args<'a>(a: &'a mut Vec<CallArg>, out: &mut Vec<&'a mut Spanned<Expr>>) {
+        for x in a.iter_mut() {
+            match x {
+                CallArg::Positional(e) | CallArg::Named(_, e) => out.push(e),
+            }
+        }
+    }
+    match e {
+        Expr::Ident(_) | Expr::Literal(_) | Expr::SelfExpr => {}
+        Expr::Binary(l, _, r) => {
+            out.push(l);
+            out.push(r);
+        }
+        Expr::Unary(_, x) | Expr::Await(x) | Expr::Try(x) | Expr::Paren(x) => out.push(x),
+        Expr::Call(f, a) => {
+            out.push(f);
+            args(a, out);
+        }
+        Expr::Index(b, i) => {
+            out.push(b);
+            out.push(i);
+        }
+        Expr::Slice(b, s) => {
+            out.push(b);
+            for x in [&mut s.start, &mut s.end, &mut s.step].into_iter().flatten() {
+                out.push(x);
+            }
+        }
+        Expr::Field(b, _) => out.push(b),
+        Expr::MethodCall(b, _, a) => {
+            out.push(b);
+            args(a, out);
+        }
+        // block-bodied: never descended into here (replaced as a whole by the caller)
+        Expr::Match(..) | Expr::If(..) => {}
+        Expr::ListComp(c) => {
+            out.push(&mut c.expr);
+            out.push(&mut c.iter);
+            if let Some(f) = &mut c.filter {
+                out.push(f);
+            }
+        }
+        Expr::DictComp(c) => {
+            out.push(&mut c.key);
+            out.push(&mut c.value);
+            out.push(&mut c.iter);
+            if let Some(f) = &mut c.filter {
+                out.push(f);
+            }
+        }
+        Expr::Closure(_, body) => out.push(body),
+        Expr::Tuple(xs) | Expr::List(xs) | Expr::Set(xs) => xs.iter_mut().for_each(|x| out.push(x)),
+        Expr::Dict(kvs) => {
+            for (k, v) in kvs.iter_mut() {
+                out.push(k);
+                out.push(v);
+            }
+        }
+        Expr::Constructor(_, a) => args(a, out),
+        Expr::FString(parts) => {
+            for p in parts.iter_mut() {
+                if let FStringPart::Expr(x) = p {
+                    out.push(x);
+                }
+            }
+        }
+        Expr::Yield(x) => {
+            if let Some(x) = x {
+                out.push(x);
+            }
+        }
+        Expr::Range { start, end, .. } => {
+            out.push(start);
+            out.push(end);
+        }
+    }
+}
+
+/// Replace every maximal `match` / `if` sub-expression by a marker identifier; the originals go to `taken`.
+fn take_blocks(e: &mut Spanned<Expr>, taken: &mut Vec<Expr>) {
+    if matches!(e.node, Expr::Match(..) | Expr::If(..)) {
+        let k = taken.len();
+        let old = std::mem::replace(&mut e.node, Expr::Ident(format!("{}{}{}", M_OPEN, k, M_CLOSE)));
+        taken.push(old);
+        return;
+    }
+    let mut kids = Vec::new();
+    children_mut(&mut e.node, &mut kids);
+    for k in kids {
+        take_blocks(k, taken);
+    }
+}
+
+impl Conv {
+    fn cfg(&self) -> FormatConfig {
+        FormatConfig::default().with_indent_width(self.width)
+    }
+
+    fn fmt_prog(&self, decls: Vec<Declaration>) -> String {
+        Formatter::new(self.cfg()).format(&Program { declarations: decls.into_iter().map(sp).collect() })
+    }
+
+    fn between(&mut self, what: &str, text: &str, prefix: &str, suffix: &str) -> String {
+        match text.strip_prefix(prefix).and_then(|t| t.strip_suffix(suffix)) {
+            Some(t) => t.to_string(),
+            None => {
+                self.problems.push(format!("{}: wrapper text {:?} lacks prefix {:?} / suffix {:?}", what, text, prefix, suffix));
+                text.to_string()
+            }
+        }
+    }
+
+    /// the text the REAL formatter writes for an expression that has no block-bodied sub-expression
+    fn flat_expr_text(&mut self, e: &Spanned<Expr>) -> String {
+        let t = self.fmt_prog(vec![Declaration::Const(ConstDecl {
+            visibility: Visibility::Private,
+            name: "X".into(),
+            ty: None,
+            value: e.clone(),
+        })]);
+        self.between("expression", &t, "const X = ", "\n")
+    }
+
+    fn ty(&mut self, t: &Spanned<Type>) -> Value {
+        let text = self.fmt_prog(vec![Declaration::Const(ConstDecl {
+            visibility: Visibility::Private,
+            name: "X".into(),
+            ty: Some(t.clone()),
+            value: sp(Expr::Ident("Y".into())),
+        })]);
+        json!(self.between("type", &text, "const X: ", " = Y\n"))
+    }
+
+    fn pattern(&mut self, p: &Spanned<Pattern>) -> Value {
+        let arm = MatchArm { pattern: p.clone(), guard: None, body: MatchBody::Expr(sp(Expr::Ident("y".into()))) };
+        let f = FunctionDecl {
+            visibility: Visibility::Private,
+            decorators: vec![],
+            is_async: false,
+            name: "f".into(),
+            type_params: vec![],
+            params: vec![],
+            return_type: sp(Type::Simple("None".into())),
+            body: vec![sp(Statement::Expr(sp(Expr::Match(Box::new(sp(Expr::Ident("x".into()))), vec![sp(arm)]))))],
+        };
+        let text = self.fmt_prog(vec![Declaration::Function(f)]);
+        let line = text.split('\n').nth(2).unwrap_or("").to_string();
+        let ind = " ".repeat(2 * self.width);
+        let got = self.between("pattern", &line, &ind, " => y");
+        json!(got)
+    }
+
+    /// expression -> parts: ["t", text] | ["m", scrutinee parts, arms] | ["i", cond parts, then, else|null]
+    fn expr(&mut self, e: &Spanned<Expr>) -> Value {
+        let mut copy = e.clone();
+        let mut taken = Vec::new();
+        take_blocks(&mut copy, &mut taken);
+        let text = self.flat_expr_text(&copy);
+        let mut parts = Vec::new();
+        let mut cur = String::new();
+        let mut it = text.chars().peekable();
+        while let Some(c) = it.next() {
+            if c == M_OPEN {
+                let mut num = String::new();
+                for d in it.by_ref() {
+                    if d == M_CLOSE {
+                        break;
+                    }
+                    num.push(d);
+                }
+                if !cur.is_empty() {
+                    parts.push(json!(["t", cur]));
+                    cur = String::new();
+                }
+                match num.parse::<usize>().ok().and_then(|k| taken.get(k)) {
+                    Some(Expr::Match(s, arms)) => {
+                        let sv = self.expr(s);
+                        let av: Vec<Value> = arms.iter().map(|a| self.arm(&a.node)).collect();
+                        parts.push(json!(["m", sv, av]));
+                    }
+                    Some(Expr::If(ie)) => {
+                        let cv = self.expr(&ie.condition);
+                        let tv = self.block(&ie.then_body);
+                        let ev = match &ie.else_body {
+                            Some(b) => self.block(b),
+                            None => Value::Null,
+                        };
+                        parts.push(json!(["i", cv, tv, ev]));
+                    }
+                    _ => self.problems.push(format!("marker {:?} not found", num)),
+                }
+            } else {
+                cur.push(c);
+            }
+        }
+        if !cur.is_empty() {
+            parts.push(json!(["t", cur]));
+        }
+        Value::Array(parts)
+    }
+
+    fn arm(&mut self, a: &MatchArm) -> Value {
+        let p = self.pattern(&a.pattern);
+        match (&a.guard, &a.body) {
+            (Some(g), MatchBody::Expr(b)) => json!(["ge", p, self.expr(g), self.expr(b)]),
+            (Some(g), MatchBody::Block(b)) => json!(["gb", p, self.expr(g), self.block(b)]),
+            (None, MatchBody::Expr(b)) => json!(["e", p, self.expr(b)]),
+            (None, MatchBody::Block(b)) => json!(["b", p, self.block(b)]),
+        }
+    }
+
+    fn block(&mut self, b: &[Spanned<Statement>]) -> Value {
+        Value::Array(b.iter().map(|s| self.stmt(&s.node)).collect())
+    }
+
+    fn binding(b: &BindingKind) -> &'static str {
+        match b {
+            BindingKind::Inferred => "inferred",
+            BindingKind::Let => "let",
+            BindingKind::Mutable => "mut",
+            BindingKind::Reassign => "reassign",
+        }
+    }
+
+    fn stmt(&mut self, s: &Statement) -> Value {
+        match s {
+            Statement::Expr(e) => json!(["expr", self.expr(e)]),
+            Statement::Assignment(a) => {
+                let t = a.ty.as_ref().map(|t| self.ty(t)).unwrap_or(Value::Null);
+                json!(["assign", Self::binding(&a.binding), a.name, t, self.expr(&a.value)])
+            }
+            Statement::FieldAssignment(a) => json!(["fassign", self.expr(&a.object), a.field, self.expr(&a.value)]),
+            Statement::IndexAssignment(a) => json!(["iassign", self.expr(&a.object), self.expr(&a.index), self.expr(&a.value)]),
+            Statement::CompoundAssignment(c) => json!(["compound", c.name, format!("{:?}", c.op), self.expr(&c.value)]),
+            Statement::Return(None) => json!(["ret0"]),
+            Statement::Return(Some(e)) => json!(["ret", self.expr(e)]),
+            Statement::If(i) => {
+                let el: Vec<Value> = i.elif_branches.iter().map(|(c, b)| json!([self.expr(c), self.block(b)])).collect();
+                let e = match &i.else_body {
+                    Some(b) => self.block(b),
+                    None => Value::Null,
+                };
+                json!(["if", self.expr(&i.condition), self.block(&i.then_body), el, e])
+            }
+            Statement::While(w) => json!(["while", self.expr(&w.condition), self.block(&w.body)]),
+            Statement::For(f) => json!(["for", f.var, self.expr(&f.iter), self.block(&f.body)]),
+            Statement::Pass => json!(["pass"]),
+            Statement::Break => json!(["break"]),
+            Statement::Continue => json!(["continue"]),
+            Statement::TupleUnpack(u) => json!(["unpack", Self::binding(&u.binding), u.names, self.expr(&u.value)]),
+            Statement::TupleAssign(t) => {
+                let ts: Vec<Value> = t.targets.iter().map(|x| self.expr(x)).collect();
+                json!(["tassign", ts, self.expr(&t.value)])
+            }
+            Statement::ChainedAssignment(c) => json!(["chained", Self::binding(&c.binding), c.targets, self.expr(&c.value)]),
+        }
+    }
+
+    fn decorators(&mut self, ds: &[Spanned<Decorator>]) -> Value {
+        Value::Array(
+            ds.iter()
+                .map(|d| {
+                    let args: Vec<Value> = d
+                        .node
+                        .args
+                        .iter()
+                        .map(|a| match a {
+                            DecoratorArg::Positional(e) => json!(["pos", self.expr(e)]),
+                            DecoratorArg::Named(n, DecoratorArgValue::Type(t)) => json!(["nty", n, self.ty(t)]),
+                            DecoratorArg::Named(n, DecoratorArgValue::Expr(e)) => json!(["nex", n, self.expr(e)]),
+                        })
+                        .collect();
+                    json!([d.node.name, args])
+                })
+                .collect(),
+        )
+    }
+
+    fn params(&mut self, ps: &[Spanned<Param>]) -> Value {
+        Value::Array(
+            ps.iter()
+                .map(|p| {
+                    let d = p.node.default.as_ref().map(|e| self.expr(e)).unwrap_or(Value::Null);
+                    json!([p.node.is_mut, p.node.name, self.ty(&p.node.ty), d])
+                })
+                .collect(),
+        )
+    }
+
+    fn fields(&mut self, fs: &[Spanned<FieldDecl>]) -> Value {
+        Value::Array(
+            fs.iter()
+                .map(|f| {
+                    let d = f.node.default.as_ref().map(|e| self.expr(e)).unwrap_or(Value::Null);
+                    json!([matches!(f.node.visibility, Visibility::Public), f.node.name, self.ty(&f.node.ty), d])
+                })
+                .collect(),
+        )
+    }
+
+    fn methods(&mut self, ms: &[Spanned<MethodDecl>]) -> Value {
+        Value::Array(
+            ms.iter()
+                .map(|m| {
+                    let m = &m.node;
+                    let recv = match m.receiver {
+                        None => "none",
+                        Some(Receiver::Immutable) => "imm",
+                        Some(Receiver::Mutable) => "mut",
+                    };
+                    let body = m.body.as_ref().map(|b| self.block(b)).unwrap_or(Value::Null);
+                    json!([self.decorators(&m.decorators), m.is_async, m.name, recv, self.params(&m.params), self.ty(&m.return_type), body])
+                })
+                .collect(),
+        )
+    }
+
+    fn ipath(p: &ImportPath) -> Value {
+        json!([p.is_absolute, p.parent_levels, p.segments])
+    }
+
+    fn items(items: &[ImportItem]) -> Value {
+        Value::Array(items.iter().map(|i| json!([i.name, i.alias])).collect())
+    }
+
+    fn decl(&mut self, d: &Declaration) -> Value {
+        let vis = |v: &Visibility| matches!(v, Visibility::Public);
+        match d {
+            Declaration::Import(i) => {
+                let k = match &i.kind {
+                    ImportKind::Module(p) => json!(["module", Self::ipath(p)]),
+                    ImportKind::From { module, items } => json!(["from", Self::ipath(module), Self::items(items)]),
+                    ImportKind::Python(n) => json!(["python", n]),
+                    ImportKind::RustCrate { crate_name, path } => json!(["rustcrate", crate_name, path]),
+                    ImportKind::RustFrom { crate_name, path, items } => json!(["rustfrom", crate_name, path, Self::items(items)]),
+                };
+                json!(["import", k, i.alias])
+            }
+            Declaration::Const(c) => {
+                let t = c.ty.as_ref().map(|t| self.ty(t)).unwrap_or(Value::Null);
+                json!(["const", vis(&c.visibility), c.name, t, self.expr(&c.value)])
+            }
+            Declaration::Model(m) => json!(["model", vis(&m.visibility), self.decorators(&m.decorators), m.name, m.type_params,
+                m.traits.iter().map(|t| t.node.clone()).collect::<Vec<_>>(), self.fields(&m.fields), self.methods(&m.methods)]),
+            Declaration::Class(m) => json!(["class", vis(&m.visibility), self.decorators(&m.decorators), m.name, m.type_params, m.extends,
+                m.traits.iter().map(|t| t.node.clone()).collect::<Vec<_>>(), self.fields(&m.fields), self.methods(&m.methods)]),
+            Declaration::Trait(t) => json!(["trait", vis(&t.visibility), self.decorators(&t.decorators), t.name, t.type_params, self.methods(&t.methods)]),
+            Declaration::Newtype(n) => json!(["newtype", vis(&n.visibility), n.name, self.ty(&n.underlying), self.methods(&n.methods)]),
+            Declaration::Enum(e) => {
+                let vs: Vec<Value> = e
+                    .variants
+                    .iter()
+                    .map(|v| json!([v.node.name, v.node.fields.iter().map(|t| self.ty(t)).collect::<Vec<_>>()]))
+                    .collect();
+                json!(["enum", vis(&e.visibility), e.name, e.type_params, vs])
+            }
+            Declaration::Function(f) => json!(["function", vis(&f.visibility), self.decorators(&f.decorators), f.is_async, f.name, f.type_params,
+                self.params(&f.params), self.ty(&f.return_type), self.block(&f.body)]),
+            Declaration::Docstring(doc) => {
+                // format_docstring's `trimmed` (the model's input): trim + the two escaping replace() calls
+                let escaped = doc.trim().replace('\\', "\\\\").replace("\"\"\"", "\\\"\\\"\\\"");
+                json!(["docstring", escaped])
+            }
+        }
+    }
+}
+
+// ---- AST tweaks: shapes the parser never produces (each applies to every node of its kind)
+
+fn tweak_block(b: &mut Vec<Spanned<Statement>>, tw: &[String]) {
+    for s in b.iter_mut() {
+        tweak_stmt(&mut s.node, tw);
+    }
+}
+
+fn tweak_expr(e: &mut Spanned<Expr>, tw: &[String]) {
+    match &mut e.node {
+        Expr::Match(s, arms) => {
+            tweak_expr(s, tw);
+            if tw.iter().any(|t| t == "empty_arms") {
+                arms.clear();
+            }
+            for a in arms.iter_mut() {
+                if tw.iter().any(|t| t == "guard_expr_body") && a.node.guard.is_some() {
+                    // `case p if g: e` is parsed into Block([Expr(e)]); the MatchBody::Expr form with a guard exists only in the AST
+                    let single = match &a.node.body {
+                        MatchBody::Block(b) if b.len() == 1 => match &b[0].node {
+                            Statement::Expr(e) => Some(e.clone()),
+                            _ => None,
+                        },
+                        _ => None,
+                    };
+                    if let Some(e) = single {
+                        a.node.body = MatchBody::Expr(e);
+                    }
+                }
+                match &mut a.node.body {
+                    MatchBody::Expr(x) => tweak_expr(x, tw),
+                    MatchBody::Block(b) => {
+                        if tw.iter().any(|t| t == "empty_arm_block") {
+                            b.clear();
+                        }
+                        tweak_block(b, tw)
+                    }
+                }
+            }
+        }
+        Expr::If(ie) => {
+            tweak_expr(&mut ie.condition, tw);
+            if tw.iter().any(|t| t == "empty_if_expr_bodies") {
+                ie.then_body.clear();
+                if let Some(b) = &mut ie.else_body {
+                    b.clear();
+                }
+            }
+            tweak_block(&mut ie.then_body, tw);
+            if let Some(b) = &mut ie.else_body {
+                tweak_block(b, tw);
+            }
+        }
+        other => {
+            let mut kids = Vec::new();
+            children_mut(other, &mut kids);
+            for k in kids {
+                tweak_expr(k, tw);
+            }
+        }
+    }
+}
+
+fn tweak_stmt(s: &mut Statement, tw: &[String]) {
+    let has = |n: &str| tw.iter().any(|t| t == n);
+    match s {
+        Statement::Assignment(a) => {
+            if has("reassign") {
+                a.binding = BindingKind::Reassign;
+            }
+            tweak_expr(&mut a.value, tw);
+        }
+        Statement::TupleUnpack(u) => {
+            if has("reassign") {
+                u.binding = BindingKind::Reassign;
+            }
+            if has("empty_names") {
+                u.names.clear();
+            }
+            tweak_expr(&mut u.value, tw);
+        }
+        Statement::ChainedAssignment(c) => {
+            if has("reassign") {
+                c.binding = BindingKind::Reassign;
+            }
+            if has("empty_names") {
+                c.targets.clear();
+            }
+            tweak_expr(&mut c.value, tw);
+        }
+        Statement::TupleAssign(t) => {
+            if has("empty_names") {
+                t.targets.clear();
+            }
+            t.targets.iter_mut().for_each(|x| tweak_expr(x, tw));
+            tweak_expr(&mut t.value, tw);
+        }
+        Statement::FieldAssignment(a) => {
+            tweak_expr(&mut a.object, tw);
+            tweak_expr(&mut a.value, tw);
+        }
+        Statement::IndexAssignment(a) => {
+            tweak_expr(&mut a.object, tw);
+            tweak_expr(&mut a.index, tw);
+            tweak_expr(&mut a.value, tw);
+        }
+        Statement::CompoundAssignment(c) => tweak_expr(&mut c.value, tw),
+        Statement::Return(Some(e)) | Statement::Expr(e) => tweak_expr(e, tw),
+        Statement::If(i) => {
+            tweak_expr(&mut i.condition, tw);
+            if has("empty_bodies") {
+                i.then_body.clear();
+                for (_, b) in i.elif_branches.iter_mut() {
+                    b.clear();
+                }
+                if let Some(b) = &mut i.else_body {
+                    b.clear();
+                }
+            }
+            tweak_block(&mut i.then_body, tw);
+            for (c, b) in i.elif_branches.iter_mut() {
+                tweak_expr(c, tw);
+                tweak_block(b, tw);
+            }
+            if let Some(b) = &mut i.else_body {
+                tweak_block(b, tw);
+            }
+        }
+        Statement::While(w) => {
+            tweak_expr(&mut w.condition, tw);
+            if has("empty_bodies") {
+                w.body.clear();
+            }
+            tweak_block(&mut w.body, tw);
+        }
+        Statement::For(f) => {
+            tweak_expr(&mut f.iter, tw);
+            if has("empty_bodies") {
+                f.body.clear();
+            }
+            tweak_block(&mut f.body, tw);
+        }
+        Statement::Return(None) | Statement::Pass | Statement::Break | Statement::Continue => {}
+    }
+}
+
+fn tweak_methods(ms: &mut Vec<Spanned<MethodDecl>>, tw: &[String]) {
+    for m in ms.iter_mut() {
+        if let Some(b) = &mut m.node.body {
+            if tw.iter().any(|t| t == "empty_fn_bodies") {
+                b.clear();
+            }
+            tweak_block(b, tw);
+        }
+    }
+}
+
+fn tweak_decl(d: &mut Declaration, tw: &[String]) {
+    let has = |n: &str| tw.iter().any(|t| t == n);
+    match d {
+        Declaration::Import(i) => match &mut i.kind {
+            ImportKind::Module(p) => {
+                if has("empty_import_path") {
+                    p.segments.clear();
+                    p.parent_levels = 0;
+                    p.is_absolute = false;
+                }
+                if has("crate_only_path") {
+                    p.segments.clear();
+                    p.is_absolute = true;
+                }
+            }
+            ImportKind::From { items, .. } | ImportKind::RustFrom { items, .. } => {
+                if has("empty_import_items") {
+                    items.clear();
+                }
+            }
+            _ => {}
+        },
+        Declaration::Const(c) => tweak_expr(&mut c.value, tw),
+        Declaration::Model(m) => {
+            if has("empty_class") {
+                m.fields.clear();
+                m.methods.clear();
+            }
+            tweak_methods(&mut m.methods, tw);
+        }
+        Declaration::Class(m) => {
+            if has("empty_class") {
+                m.fields.clear();
+                m.methods.clear();
+            }
+            tweak_methods(&mut m.methods, tw);
+        }
+        Declaration::Trait(t) => tweak_methods(&mut t.methods, tw),
+        Declaration::Newtype(n) => tweak_methods(&mut n.methods, tw),
+        Declaration::Enum(e) => {
+            if has("empty_enum") {
+                e.variants.clear();
+            }
+        }
+        Declaration::Function(f) => {
+            if has("empty_fn_bodies") {
+                f.body.clear();
+            }
+            tweak_block(&mut f.body, tw);
+        }
+        Declaration::Docstring(_) => {}
+    }
+}
+
+fn layout_case(req: &Value) -> Value {
+    let src = req["src"].as_str().unwrap_or("");
+    let width = req["indent_width"].as_u64().unwrap_or(4) as usize;
+    let tweaks: Vec<String> = req["tweaks"].as_array().map(|a| a.iter().filter_map(|x| x.as_str().map(String::from)).collect()).unwrap_or_default();
+    let toks = match lexer::lex(src) {
+        Ok(t) => t,
+        Err(e) => return json!({"parse": format!("lex: {}", e.iter().map(|x| x.message.clone()).collect::<Vec<_>>().join("; "))}),
+    };
+    let mut prog = match parser::parse(&toks) {
+        Ok(p) => p,
+        Err(e) => return json!({"parse": format!("parse: {}", e.iter().map(|x| x.message.clone()).collect::<Vec<_>>().join("; "))}),
+    };
+    if !tweaks.is_empty() {
+        for d in prog.declarations.iter_mut() {
+            tweak_decl(&mut d.node, &tweaks);
+        }
+    }
+    let mut cv = Conv { width, problems: Vec::new() };
+    let text = Formatter::new(cv.cfg()).format(&prog);
+    let decls: Vec<Value> = prog.declarations.iter().map(|d| cv.decl(&d.node)).collect();
+    // which characters of the output are inside string tokens (the property excludes string contents)
+    let mut in_string = vec![false; text.len() + 1];
+    let lexed = lexer::lex(&text);
+    if let Ok(toks) = &lexed {
+        for t in toks {
+            if matches!(t.kind, lexer::TokenKind::String(_) | lexer::TokenKind::Bytes(_) | lexer::TokenKind::FString(_)) {
+                for i in t.span.start..t.span.end.min(text.len()) {
+                    in_string[i] = true;
+                }
+            }
+        }
+    }
+    let mut tabs = 0;
+    let mut trailing = 0;
+    let mut bad_line: Option<String> = None;
+    let mut off = 0;
+    for line in text.split('\n') {
+        for (i, c) in line.char_indices() {
+            if c == '\t' && !in_string[off + i] {
+                tabs += 1;
+                bad_line.get_or_insert_with(|| line.to_string());
+            }
+        }
+        if let Some(c) = line.chars().last() {
+            let pos = off + line.len() - c.len_utf8();
+            if (c == ' ' || c == '\t' || c == '\r') && !in_string[pos] {
+                trailing += 1;
+                bad_line.get_or_insert_with(|| line.to_string());
+            }
+        }
+        off += line.len() + 1;
+    }
+    let finals = text.len() - text.trim_end_matches('\n').len();
+    json!({"parse": "ok", "text": text, "prog": decls, "problems": cv.problems,
+           "hyg": {"final_newlines": finals, "tabs": tabs, "trailing": trailing, "lexed": lexed.is_ok(), "bad_line": bad_line}})
+}
+
+fn run_layout() {
+    each_line(|line| {
+        let req: Value = match serde_json::from_str(line) {
+            Ok(v) => v,
+            Err(e) => return json!({"error": format!("bad request: {}", e)}).to_string(),
+        };
+        match catch(|| layout_case(&req)) {
+            Ok(v) => v.to_string(),
+            Err(p) => json!({"panic": p}).to_string(),
+        }
+    });
 }
